@@ -1,7 +1,7 @@
 """C08 — descriptive statistics equal their textbook definitions.
 
 Request lines (implementation side): `<op> <form> <tag> <args>`; `form` 0 = free function on a slice, 1 = Vector
-method / Vector argument; `tag` = `<regime>[:<group>:<k>]` (group = metamorphic family: exact shifts by a constant
+method / Vector argument, 2 = Matrix method (mean var sample_var std sample_std min max on an r x c matrix); `tag` = `<regime>[:<group>:<k>]` (group = metamorphic family: exact shifts by a constant
 or power-of-two scalings of one base data set).  The model sees `<op> <args>`.
 
 Oracle.  Reference values are exact rationals (every double is a dyadic rational; sums of products are computed
@@ -119,7 +119,9 @@ def pick_n(rng, tier, lo=0):
 
 
 def unary_lines(rng, ops, tag, d):
-    return ["%s %d %s %s" % (op, rng.randint(0, 1), tag, vec(d)) for op in ops]
+    # form 0 = free function, 1 = Vector method, 2 = Matrix method (the seven macro-generated reductions of
+    # matrix.rs on an r x c matrix holding the same data; for the other ops form 2 is the Vector route)
+    return ["%s %d %s %s" % (op, rng.randint(0, 2), tag, vec(d)) for op in ops]
 
 
 def cov_lines(rng, tag, x, y):
@@ -145,6 +147,9 @@ def corpus():
     L += unary_lines(_ZeroRng(), ["argmin", "argmax", "min", "max"], "nonfinite", [float("-inf"), -big])
     L += unary_lines(_ZeroRng(), ["argmin", "argmax", "min", "max"], "const", [big, big])
     L += unary_lines(_ZeroRng(), ["argmin", "argmax", "min", "max"], "const", [-big, -big])
+    # Matrix call form of the seven reductions (1 x n, n x 1, non-square, empty)
+    for d in ([3.0, 1.0, 2.0], [1.0, 2.0, 4.0, 8.0, 16.0, 32.0], [5.0], [], [1.0, -1.0, 0.5, 0.25, 7.0, 7.0, 7.0, 2.0, 9.0, -3.0, 0.0, 11.0]):
+        L += ["%s 2 matrixform %s" % (op, vec(d)) for op in ("mean", "var", "svar", "std", "sstd", "min", "max")]
     # heavily offset data (textbook one-pass formula loses everything here)
     L += unary_lines(_ZeroRng(), ["var", "svar", "std", "sstd", "mean", "wmean"], "offset", [1e8 + 1, 1e8 + 2, 1e8 + 3, 1e8 + 4])
     L += cov_lines(_ZeroRng(), "offset", [1e8 + 1, 1e8 + 2, 1e8 + 3, 1e8 + 4], [-1e8 + 4, -1e8 + 3, -1e8 + 2, -1e8 + 1.5])
@@ -698,3 +703,52 @@ NOT_PROVED = list(NOT_PROVED) + ['the one-pass covariance IS bounded by theorem 
 PROOF_MODULES = PROOF_MODULES + [m for m in ['Compute.Lemmas.Rounding6', 'Compute.Props.Rounding6'] if m not in PROOF_MODULES]
 REQUIRED_THEOREMS = REQUIRED_THEOREMS + ['Cv.Rounding6.online_error', 'Cv.Rounding6.online_means', 'Cv.Rounding6.comoment_snoc', 'Cv.Rounding6.onlineC_invariant']
 NOT_PROVED = list(NOT_PROVED) + ["the online covariance IS bounded by theorem (Props/Rounding6 online_error: (gamma_(n+4)(n Rx Ry + D) + D)/(n-1), D = n(Rx Ey + Ry Ex + Ex Ey), E = (n/2+6.5) u max|.|; representable data, exact counter), its running means being Welford's (online_means)"]
+
+# --- review pass (review-b C08: B1 guards, B2 Matrix call form, B3, B4, C5-C8): one consistent set of claim texts.
+# The blocks above build the lists incrementally; the texts below REPLACE the accumulated NOT_PROVED / TRUSTED /
+# ASSUMPTIONS / RULE so that no sentence contradicts another.
+REQUIRED_THEOREMS = REQUIRED_THEOREMS + ['Cv.C08.degenerate_sizes', 'Cv.C08.panicking_sizes', 'Cv.C08.cov_shift_all',
+                                         'Cv.C08.sampleVar_shift', 'Cv.C08.matArgmax_eq']
+RULE = ("15 statistics x 3 call forms (free function, Vector method, Matrix method for the seven macro-generated reductions "
+        "mean/var/sample_var/std/sample_std/min/max on 1 x n, n x 1 and non-square shapes) x 11 data regimes (small integers, "
+        "gaussian, offset with mean/sd up to 1e8, constant, sorted, reversed, tied, signed zeros, exact-shift families, "
+        "power-of-two scaling families incl. 2^+-500, non-finite [correspondence only]) x lengths 0..1e4 with every 2^k-1, 2^k, "
+        "2^k+1 and 1023..1026, 2047..2050; non-trivial = distinct (op, regime, length) class")
+NOT_PROVED = [
+    "floating-point rounding is covered by theorems in the standard model only where listed here: both mean algorithms "
+    "(Props/Rounding), the two-pass covariance / variance and Welford M2 / var / sample_var (Props/Rounding2), the one-pass "
+    "covariance (Props/Rounding5 onepass_error) and the online covariance (Props/Rounding6 online_error). The standard model "
+    "quantifies over all reals (no overflow / underflow), its concrete instances in Lemmas/FlModel are toy roundings, and binary64 "
+    "is linked to it only informally; the rounding clause of the property is therefore DECIDED by the bit-exact tie plus the "
+    "exact-rational oracle with the condition-number-scaled bound, the theorems explain the form of that bound",
+    "NO rounding theorem exists for std, sample_std (one square root after var) and hist_bin_centers (one addition, one halving): "
+    "oracle only (std: |r^2 - var| within the variance bound + 4 eps var; hist: one rounding of the exact midpoint)",
+    "several rounding theorems in files not owned by this property still carry the size guard 1 <= n where the statistic needs "
+    "2 <= n (WelfordRounding.sampleVar_error, StatRounding.sampleCovariance_error, Rounding5.online_error_partial, "
+    "Rounding6.online_error), no guard where 1 <= n is needed (Rounding5.onepass_error with an empty tail, Rounding.mean_error, "
+    "Rounding.mean_error_add_two): at those sizes they speak about Lean's x/0 = 0, not about the code (which returns NaN)",
+    "argmin/argmax for data containing +inf/-inf or values beyond the f64::MAX/f64::MIN seeds (documented by theorem "
+    "argmin_all_ge_seed: argmin [inf, MAX] = 0); the first-index theorems assume every datum <= seed (>= seed), true of all finite doubles",
+    "signed zeros: the order theorems are over a linear order, where +0 and -0 are one point; which zero min/max return and that "
+    "argmin/argmax treat them as a tie is decided by the oracle and the correspondence only",
+    "the unrolled utils::sum (anchor mechanism 2) is NOT regenerated from the source: Generated/SrcC08Loops maps the name `sum` to "
+    "the hand model Cv.sum8; its body and tail are tied by the bit-exact correspondence only (lengths 0..1e4 incl. every residue "
+    "mod 8), and sum8 = List.sum is a theorem (Lemmas/C08 sum8_eq)",
+    "the Vector / Matrix wrappers are one-line forwards (`$fn(&self.v)`, `self.data.$fn()`); they have no separate model and are "
+    "tied by running them (call forms 1 and 2) against the model of the free function",
+]
+TRUSTED = [
+    "Iterator::sum::<f64>() folds from -0.0 (observed; compared bit for bit on every covariance / trapezoid line)",
+    "f64::min / f64::max: NaN-ignoring, modelled as keeping the accumulator on ties; the SIGN OF A ZERO RESULT of min / max is "
+    "NOT compared (replies_agree masks it for these two ops only): they lower to LLVM minnum / maxnum, which may return either "
+    "zero, and the compiled fold of this toolchain returns -0 for min [1,0,1,0,-0,...] but +0 for min [0,-0]. Every other reply "
+    "token, and every other op, is compared bit for bit",
+]
+ASSUMPTIONS = [
+    "the property quantifies over all finite data; the generator draws |x| in [1e-100, 1e100] or 0 for the moment statistics "
+    "(beyond that squares overflow / underflow in ANY algorithm and the oracle would have no definition to compare with), and the "
+    "full finite range incl. subnormals and 1e300 for min / max / argmin / argmax",
+    "lengths < 2^53 (usize -> f64 exact); sizes 0 and 1 are outside the statistic definitions (theorems degenerate_sizes, "
+    "panicking_sizes state what is returned; the oracle checks the panics and skips the 0/0 values)",
+    "the executor is built with overflow checks (n - 1 at n = 0 panics); a release build wraps and returns NaN there",
+]
